@@ -86,7 +86,7 @@ def run(tier, seed):
             (conc, (vh, "concurrent-unpoisoned", ["-seed", seed + 2, "-g", "4,16" if quick else "2,4,8,16,32", "-n", n, "-poison=false"], False)),
             (conc, (vhd, "concurrent-debugpools", ["-seed", seed + 1, "-g", "2,8" if quick else "2,4,8,16", "-n", n, "-full"], True))]
     jobs += [(race, (k, v)) for k, v in enumerate(variants)]
-    common.parallel(lambda j: j[0](j[1]), jobs, jobs=len(jobs))
+    common.parallel_jobs(check, lambda j: j[0](j[1]), jobs, jobs=len(jobs))
     allr, ours = race_reports(log)
     check.coverage["race_reports_total"] = len(allr)
     check.coverage["race_reports_outside_validate"] = len(allr) - len(ours)
